@@ -69,7 +69,10 @@ func run(c *vf.Ctx) {
 	c.Rule("environment-answer exploration: one case = one execution of the script (query, AKE, 2+2 data messages, SMP, 1+1 data messages, End, optional second session) " +
 		"over two real Conversations, identified by its vector of non-default answers (fragment sizes, simultaneous start, SMP secret class/restart, and per in-flight message: " +
 		"twice/drop/swap/substitution at evenly spaced offsets/piece-level dup-drop-swap); every vector with <= bound deviations is run; distinct = distinct deviation vector. " +
-		"Totality parts: one case = one input (or input pair/sequence) fed to a conversation in a named state")
+		"Totality parts: one case = one input (or input pair/sequence) fed to a conversation in a named state. " +
+		"Part Y: every sequence of D operations over {A/B calls Authenticate (at most 2), A/B sends a text (at most 2), deliver the oldest message to A/B} after a clean AKE, for equal and unequal secrets, then a clean SMP from whatever state is left; " +
+		"part Z: a second key exchange on the same objects (End+End, End by one side, a query arriving while encrypted, the same with an unanswered SMP) x first-session history x every data-exchange schedule of depth D2 in the new session, then clean SMPs. " +
+		"In every part each Receive/Send/Authenticate call gets private copies of its byte-slice arguments, which are overwritten when the call returns, and the returned slices are copied and then overwritten")
 	c.Assume("crypto/dsa, crypto/aes, crypto/hmac, crypto/sha1, crypto/sha256, math/big and encoding/base64 of the standard library are trusted")
 	c.Assume("DSA keys and all Conversation randomness come from a deterministic SHA-256 counter stream; a different seed changes texts and secrets only")
 	c.Assume("fragment reassembly, message framing and the data-message layout are modelled from the OTR v2 protocol description (ref/otrref)")
@@ -120,6 +123,12 @@ func run(c *vf.Ctx) {
 	// ---- Parts G, F, T ----
 	if want("X") {
 		timed(c, "X data-exchange schedules", func() { schedulePart(c) })
+	}
+	if want("Y") {
+		timed(c, "Y SMP schedules", func() { smpSchedulePart(c) })
+	}
+	if want("Z") {
+		timed(c, "Z reused conversations", func() { reusePart(c) })
 	}
 	if want("G") {
 		timed(c, "G grid", func() { gridPart(c) })
